@@ -158,6 +158,26 @@ Definition cast_uint_from_float (dbg : bool) (F : ffmt) (w : Z) (n : nat) (value
       then Ret (as_buint (fbits F) w n (u_shr mant (mant_bit_width - 1 - exp)))
       else U_shl dbg w (as_buint (fbits F) w n mant) (exp - (mant_bit_width - 1)).
 
+(* the same function BEFORE commit ed48fe2 (pinned tree): for exp == -1 it returned ONE unless the mantissa is a
+   power of two.  Kept only for the refutation theorem float_to_int_refuted; not in the operation table. *)
+Definition cast_uint_from_float_prefix (dbg : bool) (F : ffmt) (w : Z) (n : nat) (value : Z) : outcome (list Z) :=
+  if f_is_nan F value then Ret (ZERO n)
+  else
+    let is_infinite := f_is_infinite F value in
+    let '(sign, exp, mant) := into_normalised_signed_parts F value in
+    if sign then Ret (ZERO n)
+    else if is_infinite then Ret (UMAX w n)
+    else if mant =? 0 then Ret (ZERO n)
+    else if exp <? -1 then Ret (ZERO n)
+    else if exp =? -1 then (if u_count_ones mant =? 1 then Ret (ZERO n) else Ret (ONE n))
+    else if exp <? 0 then Ret (UMAX w n)
+    else if bits w n <=? exp then Ret (UMAX w n)
+    else
+      let mant_bit_width := bitlen mant in
+      if exp <=? mant_bit_width - 1
+      then Ret (as_buint (fbits F) w n (u_shr mant (mant_bit_width - 1 - exp)))
+      else U_shl dbg w (as_buint (fbits F) w n mant) (exp - (mant_bit_width - 1)).
+
 (* ---------- the CastFrom impls ---------- *)
 
 Definition U_to_float (dbg : bool) (F : ffmt) (w : Z) (a : list Z) : outcome Z :=
